@@ -4,6 +4,7 @@ mod model;
 mod oracle;
 mod ph;
 mod props;
+mod props2;
 mod sess;
 mod ffi;
 mod tables;
@@ -55,6 +56,10 @@ fn main() {
                 "c06" => props::c06(&tier, seed, &a["meta"]),
                 "c08" => props::c08(&tier, seed, &a["meta"]),
                 "c09" => props::c09(&tier, seed, &a["meta"]),
+                "c07" => props2::c07(&tier, seed, &a["meta"]),
+                "c15" => props2::c15(&tier, seed, &a["meta"]),
+                "c16" => props2::c16(&tier, seed, &a["meta"]),
+                "c17" => props2::c17(&tier, seed, &a["meta"]),
                 "c02" => props::c02(&tier, seed, &a["meta"]),
                 "c03" => props::c03(&tier, seed, &a["meta"]),
                 "c12" => fx::c12(&tier, seed, &a["meta"]),
